@@ -173,6 +173,10 @@ def main(argv=None):
             shards = mod.plan(tier, seed)
         if shards and not replay and meta.get("reach", True):
             shards[0]["_reach"] = True
+        if not replay and meta.get("prelude", True):
+            for i_, s_ in enumerate(shards):
+                if i_ % 2 == 1 and "_prelude" not in s_:
+                    s_["_prelude"] = True
         timeout = float(meta.get("shard_timeout", {}).get(tier, 900 if tier == "quick" else 3600))
         docs = []
         with cf.ThreadPoolExecutor(max_workers=env.jobs()) as ex:
